@@ -5,10 +5,12 @@ mod c01conf;
 mod c02;
 mod c03;
 mod c04;
+mod c05;
 mod c06;
 mod c07;
 mod c08;
 mod c09;
+mod c10;
 mod c11;
 mod c12;
 mod c13;
@@ -25,7 +27,10 @@ mod wl;
 mod dump;
 mod hist;
 mod iso;
+mod preempt_family;
+mod presched;
 mod qmodel;
+mod scen;
 
 use common::*;
 use serde_json::Value;
@@ -44,6 +49,8 @@ fn registry(id: &str) -> Option<(RunFn, ReplayFn)> {
         "C09" => Some((c09::run, c09::replay)),
         "C11" => Some((c11::run, c11::replay)),
         "C01" => Some((c01::run, c01::replay)),
+        "C05" => Some((c05::run, c05::replay)),
+        "C10" => Some((c10::run, c10::replay)),
         "C12" => Some((c12::run, c12::replay)),
         "C13" => Some((c13::run, c13::replay)),
         "C14" => Some((c14::run, c14::replay)),
@@ -77,6 +84,8 @@ fn main() {
             ("C18", _) => c18::worker(fam, start, end, step, arg),
             ("C11", _) => c11::worker(fam, start, end, step, arg),
             ("C01", _) => c01::worker(fam, start, end, step, arg),
+            ("C05", _) => c05::worker(fam, start, end, step, arg),
+            ("C10", _) => c10::worker(fam, start, end, step, arg),
             _ => panic!("unknown worker"),
         }
         return;
@@ -122,7 +131,7 @@ fn main() {
     let ctx = match id.as_str() {
         "C03" => ctx.with_budget(50, 3000),
         "C16" => ctx.with_budget(50, 1500),
-        "C02" | "C04" | "C17" => ctx.with_budget(55, 1800),
+        "C02" | "C04" | "C17" | "C05" | "C10" => ctx.with_budget(55, 1800),
         _ => ctx,
     };
     let rep = run(&ctx);
